@@ -188,15 +188,30 @@ def naive_rgb(c):
     return (1.0 - c[..., :3]) * (1.0 - c[..., 3:4])
 
 
+def naive_rgb32(c):
+    """the same conversion carried out in binary32 (c holds float32 values): SetSat is discontinuous where two
+    components coincide, and components one rounding apart may coincide after a float32 conversion"""
+    c32 = c.astype(F32)
+    return ((F32(1) - c32[..., :3]) * (F32(1) - c32[..., 3:4])).astype(np.float64)
+
+
 # ------------------------------------------------------------------ failure bookkeeping
 class Fails:
     def __init__(self, ck):
         self.ck = ck
         self.n = {}
 
+        self.k = {}
+
     def add(self, kind, inp, observed, expected, **extra):
+        """keep at most MAXF failures per (kind, mode, known-finding class or None): failures of a listed class can
+        never crowd out unlisted ones"""
+        d = {"kind": kind, "input": inp, "observed": observed, "expected": expected}
+        d.update(extra)
+        key = (kind, inp.get("mode"), self.ck.classify(d))
         self.n[kind] = self.n.get(kind, 0) + 1
-        if self.n[kind] <= MAXF:
+        self.k[key] = self.k.get(key, 0) + 1
+        if self.k[key] <= MAXF:
             self.ck.fail(kind, inp, observed, expected, **extra)
 
 
@@ -347,10 +362,13 @@ def oracle_rgb(F, name, Cb, Cs, stream):
     return r
 
 
-def pdf_cmyk(name, b, s):
+def pdf_cmyk(name, b, s, f32=False):
     """PDF 1.7 11.3.5.3 for a 4-component subtractive space: complement CMY, blend, complement back; K of the
-    backdrop for hue/saturation/color, K of the source for luminosity"""
-    e, tol = spec_rgb(name, 1.0 - b[..., :3], 1.0 - s[..., :3])
+    backdrop for hue/saturation/color, K of the source for luminosity (f32: complement rounded to binary32, see naive_rgb32)"""
+    if f32:
+        e, tol = spec_rgb(name, (F32(1) - b[..., :3].astype(F32)).astype(np.float64), (F32(1) - s[..., :3].astype(F32)).astype(np.float64))
+    else:
+        e, tol = spec_rgb(name, 1.0 - b[..., :3], 1.0 - s[..., :3])
     k = s[..., 3:4] if name == "luminosity" else b[..., 3:4]
     return np.concatenate([1.0 - e, k], -1), tol
 
@@ -373,9 +391,12 @@ def oracle_cmyk(F, name, Cb, Cs, stream):
     # range / finiteness
     bad = (~np.isfinite(v) | (v < 0) | (v > 1)).any(-1)
     if bad.any():
-        ids, n = first_idx(bad)
-        for i in ids:
-            F.add("range-cmyk", dict(ctx, Cb=fl(Cb[i]), Cs=fl(Cs[i])), fl(v[i]), "finite values in [0,1]", count=n)
+        # the listed class (F-C12-1), vectorised, so that unlisted failures are reported first
+        listed = f1_class(name, b, s, v) & (v[..., :3] < 0).any(-1)
+        for msk in (bad & ~listed, bad & listed):
+            ids, n = first_idx(msk)
+            for i in ids:
+                F.add("range-cmyk", dict(ctx, Cb=fl(Cb[i]), Cs=fl(Cs[i])), fl(v[i]), "finite values in [0,1]", count=n)
     # K channel as published (hue/saturation/color: backdrop; luminosity: source; darker/lighter: one of the two)
     vk = v[..., 3]
     if name in ("hue", "saturation", "color"):
@@ -385,31 +406,39 @@ def oracle_cmyk(F, name, Cb, Cs, stream):
     else:
         badk = (vk != kb) & (vk != ks)
     if badk.any():
-        ids, n = first_idx(badk)
-        for i in ids:
+        listed = (kb != ks) & (vk == ks) if name in ("hue", "saturation", "color") else np.zeros(badk.shape, dtype=bool)
+        for msk in (badk & ~listed, badk & listed):
+          ids, n = first_idx(msk)
+          for i in ids:
             F.add("cmyk-k-channel", dict(ctx, Cb=fl(Cb[i]), Cs=fl(Cs[i])), fl(v[i]), "K of the backdrop" if name != "luminosity" else "K of the source", count=n)
     # the PDF formula
     if name in ("hue", "saturation", "color", "luminosity"):
         e, tol = pdf_cmyk(name, b, s)
+        e32, tol32 = pdf_cmyk(name, b, s, f32=True)
         with np.errstate(invalid="ignore"):
-            ok = (np.abs(v - e) <= tol[..., None] + 2e-9).all(-1)
-        if (~ok).any():
-            ids, n = first_idx(~ok)
+            ok = (np.abs(v - e) <= tol[..., None] + 2e-9).all(-1) | (np.abs(v - e32) <= tol32[..., None] + 2e-9).all(-1)
+        listed = (kb != 0) | (ks != 0)
+        for msk in (~ok & ~listed, ~ok & listed):
+            ids, n = first_idx(msk)
             for i in ids:
                 F.add("formula-cmyk-pdf", dict(ctx, Cb=fl(Cb[i]), Cs=fl(Cs[i])), fl(v[i]), fl(e[i]), tol=float(tol[i]), count=n)
     # the method the module documents: CMYK -> RGB, blend, CMY back out of the RGB result, relative to the K returned
-    e3, tol = spec_rgb(name, naive_rgb(b), naive_rgb(s))
     kk = vk[..., None]
-    with np.errstate(all="ignore"):
-        ecmy = np.where(kk < 1, (1.0 - e3 - kk) / np.where(kk < 1, 1.0 - kk, 1.0), 0.0)
-        tolk = (tol * (1.0 + 1.0 / np.maximum(1.0 - vk, 1e-300)))[..., None] + (1.0 + np.abs(ecmy)) * 2e-9 / np.maximum(1.0 - kk, 1e-300)
-        ok = (np.abs(v[..., :3] - ecmy) <= tolk).all(-1) | (vk != ks)
-        if name in ("darker_color", "lighter_color"):
-            lb, ls = s_lum(naive_rgb(b)), s_lum(naive_rgb(s))
-            near = np.abs(ls - lb) < 1e-6
-            alt_b = (1.0 - naive_rgb(b) - kk) / np.where(kk < 1, 1.0 - kk, 1.0)
-            alt_s = (1.0 - naive_rgb(s) - kk) / np.where(kk < 1, 1.0 - kk, 1.0)
-            ok |= near & ((np.abs(v[..., :3] - alt_b) <= tolk).all(-1) | (np.abs(v[..., :3] - alt_s) <= tolk).all(-1))
+    ok = np.zeros(vk.shape, dtype=bool)
+    ecmy = tolk = None
+    for conv in (naive_rgb32, naive_rgb):
+        rb, rs = conv(b), conv(s)
+        e3, tol = spec_rgb(name, rb, rs)
+        with np.errstate(all="ignore"):
+            den = np.where(kk < 1, 1.0 - kk, 1.0)
+            ecmy = np.where(kk < 1, (1.0 - e3 - kk) / den, 0.0)
+            tolk = (tol * (1.0 + 1.0 / np.maximum(1.0 - vk, 1e-300)))[..., None] + (1.0 + np.abs(ecmy)) * 2e-9 / np.maximum(1.0 - kk, 1e-300)
+            ok |= (np.abs(v[..., :3] - ecmy) <= tolk).all(-1)
+            if name in ("darker_color", "lighter_color"):
+                near = np.abs(s_lum(rs) - s_lum(rb)) < 1e-6
+                alt_b = np.where(kk < 1, (1.0 - rb - kk) / den, 0.0)
+                alt_s = np.where(kk < 1, (1.0 - rs - kk) / den, 0.0)
+                ok |= near & ((np.abs(v[..., :3] - alt_b) <= tolk).all(-1) | (np.abs(v[..., :3] - alt_s) <= tolk).all(-1))
     if (~ok).any():
         ids, n = first_idx(~ok)
         for i in ids:
@@ -425,18 +454,34 @@ def _one_px(name, cb, cs):
     return (None if r is None else np.asarray(r, dtype=np.float64).ravel()), exc
 
 
+def f1_class(name, b, s, v):
+    """vectorised class of F-C12-1 for float64 arrays (.., 4): negative CMY out of the CMYK wrapper exactly where the
+    blended RGB reaches or exceeds 1 - K of the source (for darker/lighter colour at a luminosity tie: either pick)"""
+    ks = s[..., 3]
+    with np.errstate(invalid="ignore"):
+        base = np.isfinite(v).all(-1) & (v <= 1).all(-1) & (v[..., 3] >= 0) & (ks < 1)
+
+        def cls(e):
+            return ((v[..., :3] >= 0) | (e > (1 - ks)[..., None] - 1e-6)).all(-1)
+
+        c = np.zeros(base.shape, dtype=bool)
+        for conv in (naive_rgb, naive_rgb32):
+            rb, rs = conv(b), conv(s)
+            e3, _ = spec_rgb(name, rb, rs)
+            c |= cls(e3)
+            if name in ("darker_color", "lighter_color"):
+                tie = np.abs(s_lum(rs) - s_lum(rb)) < 1e-6
+                c |= tie & (cls(rb) | cls(rs))
+    return base & c
+
+
 def _cls_f1(f):
-    """negative CMY out of the CMYK wrapper exactly when the blended RGB is brighter than the source black allows"""
     if f["kind"] != "range-cmyk":
         return False
-    v = np.array(f["observed"], dtype=np.float64)
-    if not np.isfinite(v).all() or (v > 1).any() or not (v[:3] < 0).any() or v[3] < 0:
-        return False
-    b = np.array(f["input"]["Cb"], dtype=np.float64)
-    s = np.array(f["input"]["Cs"], dtype=np.float64)
-    e3, tol = spec_rgb(f["input"]["mode"], naive_rgb(b), naive_rgb(s))
-    ks = s[3]
-    return bool(ks < 1 and all((v[j] >= 0) or (e3[j] > 1 - ks) for j in range(3)))
+    v = np.array(f["observed"], dtype=np.float64)[None]
+    b = np.array(f["input"]["Cb"], dtype=np.float64)[None]
+    s = np.array(f["input"]["Cs"], dtype=np.float64)[None]
+    return bool((v[..., :3] < 0).any() and f1_class(f["input"]["mode"], b, s, v)[0])
 
 
 def _cls_f2(f):
@@ -454,7 +499,8 @@ def _cls_f3(f):
 
 
 def _w_f1():
-    r, exc = _one_px("hue", [0, 0, 0, 0], [0.2, 0.3, 0.4, 0.5])
+    # the witness of Properties/C12.v range_cmyk_is_refuted(_exec), replayed on the implementation
+    r, exc = _one_px("lighter_color", [0, 0, 0, 0], [0, 0, 0, 0.5])
     return exc is not None or bool((r[:3] < -0.5).any())
 
 
@@ -903,7 +949,8 @@ def replay(path):
         if inp.get("path") == "sep":
             Cb, Cs = Cb.reshape(1, -1, 1), Cs.reshape(1, -1, 1)
         r, exc, pure = call(fn(inp["mode"]), Cb, Cs)
-        print("BLEND_FUNC[%s](Cb=%r, Cs=%r) ->" % (inp["mode"], cb, cs), repr(exc) if exc is not None else fl(r), "| arguments untouched:", pure)
+        print("BLEND_FUNC[%s](Cb=%r, Cs=%r) ->" % (inp["mode"], cb, cs), repr(exc) if exc is not None else fl(r),
+              "| arguments untouched:", True if pure is True else "NO, %s was modified in place" % pure.which)
     print("observed at check time:", f["observed"])
     print("expected:", f["expected"], ("(tol %r)" % f["tol"]) if "tol" in f else "")
     return 1
